@@ -145,6 +145,11 @@ def run(chk):
         for _ in range(n_rand):
             fr, desc = pkt.rand_frame(rng, well_formed=rng.random() < 0.8)
             frames.append(fr)
+        # every truncation of some of them: the layer whose header is cut (at any byte, fixed part or options) must be an
+        # error object, everything before it must still decode
+        for fr in list(frames[:(40 if quick else 1200)]):
+            for c in range(len(fr)):
+                frames.append(fr[:c])
         B = 20
         for bi in range(0, len(frames), B):
             batch = frames[bi:bi + B]
